@@ -1,0 +1,30 @@
+//! Read-only observation hook (feature `verif-hooks`).
+use super::*;
+
+/// `(max, alias -> topic in LRU order, topic -> aliases sorted by topic, free alias intervals)`
+pub type VerifTopicAliasSendDump = (
+    TopicAliasType,
+    Vec<(TopicAliasType, String)>,
+    Vec<(String, Vec<TopicAliasType>)>,
+    Vec<(TopicAliasType, TopicAliasType)>,
+);
+
+impl TopicAliasSend {
+    pub fn verif_dump(&self) -> VerifTopicAliasSendDump {
+        let mut t2a: Vec<(String, Vec<TopicAliasType>)> = self
+            .topic_to_aliases
+            .iter()
+            .map(|(k, v)| (k.clone(), v.clone()))
+            .collect();
+        t2a.sort();
+        (
+            self.max_alias,
+            self.alias_to_topic
+                .iter()
+                .map(|(a, t)| (*a, t.clone()))
+                .collect(),
+            t2a,
+            self.value_allocator.verif_intervals(),
+        )
+    }
+}
